@@ -2,7 +2,7 @@
 (* C01 (and the value side of C10, C11, C19): every recorded call of a belt function is
    recomputed with the reference semantics of STB 34.101.31 (ref/BeltModes.tla).
    Fields: op, key, iv, in, hdr (header / associated data / level), tag, out, rc (0 = ERR_OK). *)
-EXTENDS BeltModes, Json, IOUtils, TLC
+EXTENDS BeltFmt, Json, IOUtils, TLC
 
 Tr == ndJsonDeserialize(IOEnv.TRACE)
 
@@ -10,6 +10,41 @@ Ok0(r) == r.rc = 0
 \* an authenticated unwrap: accepted iff the specification accepts, and then with the spec's plaintext;
 \* on rejection no value is compared here (C09 looks at what is left in the output buffer)
 UnwrapOk(r, res) == IF res[1] THEN Ok0(r) /\ r.out = res[2] ELSE r.rc # 0
+
+\* little-endian octet-string arithmetic for the length blocks: a + b mod 256^Len(a); c * 8 on n octets
+AddOct(a, b) == FoldLeft(LAMBDA acc, i : LET t == a[i] + b[i] + acc[2] IN <<Append(acc[1], t % 256), t \div 256>>,
+                         <<<<>>, 0>>, Upto(Len(a)))[1]
+Shl3(c, n) == [i \in 1..n |-> (((IF i <= Len(c) THEN c[i] ELSE 0) * 8) % 256)
+                              + (IF i >= 2 /\ i - 1 <= Len(c) THEN c[i - 1] \div 32 ELSE 0)]
+
+\* C10: a fragment script executed on a Start/Step/Get bundle (harness/drv_belt_steps.c):
+\* the concatenated outputs equal the one-shot value on the concatenated input, every Get
+\* equals the one-shot value on the prefix fed so far, Verify answered correctly.
+GetsOk(r, f(_, _)) == \A k \in 1..Len(r.gets) : r.gets[k].tag = f(r.gets[k].ilen, r.gets[k].xlen)
+StepsOk(r) ==
+  /\ r.vbad = 0
+  /\ CASE r.b = "ecbE" -> r.out = ECBEncr(r.in, r.key)
+       [] r.b = "ecbD" -> r.out = ECBDecr(r.in, r.key)
+       [] r.b = "cbcE" -> r.out = CBCEncr(r.in, r.key, r.iv)
+       [] r.b = "cbcD" -> r.out = CBCDecr(r.in, r.key, r.iv)
+       [] r.b = "cfbE" -> r.out = CFBEncr(r.in, r.key, r.iv)
+       [] r.b = "cfbD" -> r.out = CFBDecr(r.in, r.key, r.iv)
+       [] r.b = "ctr"  -> r.out = CTR(r.in, r.key, r.iv)
+       [] r.b = "bdeE" -> r.out = BDEEncr(r.in, r.key, r.iv)
+       [] r.b = "bdeD" -> r.out = BDEDecr(r.in, r.key, r.iv)
+       [] r.b = "mac"  -> GetsOk(r, LAMBDA il, xl : MAC(TakeN(r.in, xl), r.key))
+       [] r.b = "hash" -> GetsOk(r, LAMBDA il, xl : Hash(TakeN(r.in, xl)))
+       [] r.b = "hmac" -> GetsOk(r, LAMBDA il, xl : HMAC(r.key, TakeN(r.in, xl)))
+       [] r.b = "dwpE" -> /\ r.out = DWPWrap(r.in, r.hdr, r.key, r.iv)[1]
+                          /\ GetsOk(r, LAMBDA il, xl : DWPWrap(TakeN(r.in, xl), TakeN(r.hdr, il), r.key, r.iv)[2])
+       [] r.b = "cheE" -> /\ r.out = CHEWrap(r.in, r.hdr, r.key, r.iv)[1]
+                          /\ GetsOk(r, LAMBDA il, xl : CHEWrap(TakeN(r.in, xl), TakeN(r.hdr, il), r.key, r.iv)[2])
+       \* decryption direction: the input is the ciphertext, tags are over the ciphertext prefix
+       [] r.b = "dwpD" -> /\ r.out = CTR(r.in, r.key, r.iv)
+                          /\ GetsOk(r, LAMBDA il, xl : AeadTag(TakeN(r.in, xl), TakeN(r.hdr, il), r.key, r.iv, FALSE))
+       [] r.b = "cheD" -> /\ r.out = CHEWrap(r.in, r.hdr, r.key, r.iv)[1]
+                          /\ GetsOk(r, LAMBDA il, xl : AeadTag(TakeN(r.in, xl), TakeN(r.hdr, il), r.key, r.iv, TRUE))
+       [] OTHER -> FALSE
 
 LineOk(r) ==
   CASE r.op = "blockE"   -> r.out = BeltEncr(r.in, r.key)
@@ -40,6 +75,17 @@ LineOk(r) ==
     [] r.op = "krp"      -> Ok0(r) /\ r.out = KRP(r.key, r.iv, r.hdr, Len(r.out))
     [] r.op = "hmac"     -> Ok0(r) /\ r.out = HMAC(r.key, r.in)
     [] r.op = "pbkdf2"   -> Ok0(r) /\ r.out = PBKDF2(r.key, r.iter, r.in)
+    [] r.op = "addBitSizeU32" -> r.out = AddOct(r.in, Shl3(r.hdr, 16))
+    [] r.op = "addBitSizeW"   -> r.out = AddOct(r.in, Shl3(r.hdr, 8))
+    [] r.op = "memMove"  -> r.out = r.in
+    [] r.op = "memJoin"  -> r.out = r.in \o r.hdr
+    [] r.op = "steps"    -> StepsOk(r)
+    [] r.op = "fmtE"     -> Ok0(r) /\ r.out = FMTEncr(r.in, r.mod, r.key, r.iv)
+    [] r.op = "fmtD"     -> Ok0(r) /\ r.out = FMTDecr(r.in, r.mod, r.key, r.iv)
+    \* block-count table: a reported value, and a breakpoint (largest alphabet with count <= b)
+    [] r.op = "fmtPoint" -> BlockCount(r.mod, r.n) = r.b
+    [] r.op = "fmtBreak" -> PowLe(r.mod, r.n, r.b) /\ ~PowLe(r.mod + 1, r.n, r.b)
+                            /\ (r.b = 1 \/ ~PowLe(r.mod, r.n, r.b - 1))
     [] OTHER -> FALSE
 
 VARIABLES phase, idx, ok
